@@ -2,9 +2,16 @@
 //!
 //! Case line: `<N> <K> ; op ; op ; ...` — K registers `Bitset::<N>::new()`; see `lean/Driver/Bitset.lean`
 //! for the op list.  At the end every register is observed through the public API only: `test` on all
-//! indices, `count`, `iter_bits().collect()`, `Display`, `Debug`, and `==` on all pairs.  An independent
-//! `Vec<bool>` mirror of every register is maintained next to the real bitsets; `o=ok` at the end of the
-//! answer says that all observations equal the mirror's.
+//! indices, `count`, `iter_bits().collect()`, `Display`, `Debug`, the iterator probes (every provided `Iterator`
+//! method on a partially consumed `BitsIter`), and `==` / `!=` on all pairs; `obs r` makes the same observation of
+//! one register in the middle of the history.  An independent `Vec<bool>` mirror of every register is maintained
+//! next to the real bitsets; `o=ok` at the end of the answer says that all observations equal the mirror's, and the
+//! `x=` field of every register observation reports the harness-side checks of the other trait entry points
+//! (`BitsIter::new` on the raw words, `ToString`, `{:#?}`, `Debug` inside `Option`, `Clone`/`clone_from`/`Default`,
+//! the operators with the SAME object on both sides, `!!b`).
+//!
+//! Capacities: the const generic `N` is instantiated for every entry of `NS` (1, 2, 3, 10 and the 64-word boundary
+//! family 63, 64, 65, 128, 129); this list IS the instantiation list of the check.
 //!
 //! Each case runs on a worker thread under a watchdog (2 s of CPU time on one case): an iterator that never returns makes the answer
 //! `hang` instead of blocking the check (later cases of that process are answered `INVALID skipped-after-hang`
@@ -16,7 +23,13 @@ use rlib_bitset::Bitset;
 use std::sync::mpsc;
 use std::time::Duration;
 
-const NS: [usize; 4] = [1, 2, 3, 10];
+use rlib_bitset::bits_iter::BitsIter;
+
+const NS: [usize; 9] = [1, 2, 3, 10, 63, 64, 65, 128, 129];
+/// capacities with the full small-scope streams
+const NS_SMALL: [usize; 4] = [1, 2, 3, 10];
+/// capacities at and beyond the 64-word (4096-bit) boundary: reduced, mostly sparse streams
+const NS_BIG: [usize; 5] = [63, 64, 65, 128, 129];
 
 // ------------------------------------------------------------------------------------------------
 // parsing
@@ -38,6 +51,9 @@ enum Op {
     XorA(usize, usize),
     Not(usize, usize),
     Clone(usize, usize),
+    CloneFrom(usize, usize),
+    Default(usize),
+    Obs(usize),
     Test(usize, usize),
     Load(usize, Vec<u64>),
 }
@@ -82,6 +98,9 @@ fn parse_op(t: &[&str], k: usize) -> Option<Op> {
         ["xora", d, s] => Op::XorA(reg(d, k)?, reg(s, k)?),
         ["not", d, s] => Op::Not(reg(d, k)?, reg(s, k)?),
         ["clone", d, s] => Op::Clone(reg(d, k)?, reg(s, k)?),
+        ["clonefrom", d, s] => Op::CloneFrom(reg(d, k)?, reg(s, k)?),
+        ["default", d] => Op::Default(reg(d, k)?),
+        ["obs", r] => Op::Obs(reg(r, k)?),
         ["test", r, x] => Op::Test(reg(r, k)?, pos(x)?),
         ["load", d, ws] => {
             let mut v = Vec::new();
@@ -144,6 +163,7 @@ struct Probe {
     skip_count: usize,                             // iter_bits().skip(k).count()
     hint_ok: bool,                                 // size_hint brackets the number of remaining elements
     hint: (usize, Option<usize>),
+    provided: String,                              // every other provided method, see `provided_impl`
 }
 
 fn dedup_keep_order(v: Vec<usize>) -> Vec<usize> {
@@ -156,9 +176,13 @@ fn dedup_keep_order(v: Vec<usize>) -> Vec<usize> {
     out
 }
 
-/// prefix lengths probed for a set with `l` members: 0, 1, 2, l-1 (those <= l)
+/// prefix lengths probed for a set with `l` members: 0, 1, 2, l/2, l-1, l (just exhausted), l+1 (`next` already answered `None` once)
 fn probe_ks(l: usize) -> Vec<usize> {
-    dedup_keep_order(vec![0, 1, 2, l.saturating_sub(1)].into_iter().filter(|&k| k <= l).collect())
+    dedup_keep_order(vec![0, 1, 2, l / 2, l.saturating_sub(1), l, l + 1])
+}
+/// the probes on which every other provided method is called as well (`provided_impl`)
+fn provided_ks(l: usize) -> Vec<usize> {
+    vec![0, 1, l / 2, l]
 }
 /// `nth` arguments probed with `rem` elements remaining
 fn probe_js(rem: usize) -> Vec<usize> {
@@ -171,59 +195,248 @@ fn opt(x: Option<usize>) -> String {
         None => "-".to_string(),
     }
 }
+fn b01(b: bool) -> &'static str {
+    if b {
+        "1"
+    } else {
+        "0"
+    }
+}
+fn ord(o: std::cmp::Ordering) -> &'static str {
+    match o {
+        std::cmp::Ordering::Less => "L",
+        std::cmp::Ordering::Equal => "E",
+        std::cmp::Ordering::Greater => "G",
+    }
+}
 
-fn show_probe(p: &Probe, n: usize) -> String {
+fn show_probe(p: &Probe, n: usize, full: &[usize]) -> String {
+    let sfx = p.rest[..] == full[p.k.min(full.len())..];
     format!(
-        "k={}:c={}:l={}:r={}:n={}:p={}>{}:s={}:h={}",
+        "k={}:c={}:l={}:r={}:n={}:p={}>{}:s={}:h={}{}",
         p.k,
         p.count,
         opt(p.last),
-        show_iter(&p.rest, n),
+        if sfx { "sfx".to_string() } else { show_iter(&p.rest, n) },
         p.nths.iter().map(|(j, x, a)| format!("{}>{}>{}", j, opt(*x), a)).collect::<Vec<_>>().join("/"),
         opt(p.peek),
         p.peek_count,
         p.skip_count,
-        if p.hint_ok { "ok".to_string() } else { format!("bad({},{:?})", p.hint.0, p.hint.1) }
+        if p.hint_ok { "ok".to_string() } else { format!("bad({},{:?})", p.hint.0, p.hint.1) },
+        p.provided
+    )
+}
+
+/// a fresh `BitsIter` advanced by `k` calls of `next` (calls after the end included)
+fn adv<const N: usize>(b: &Bitset<N>, k: usize) -> BitsIter<'_, N> {
+    let mut it = b.iter_bits();
+    for _ in 0..k {
+        it.next();
+    }
+    it
+}
+
+fn hash_step(a: u64, x: usize) -> u64 {
+    a.wrapping_mul(31).wrapping_add(x as u64 + 1)
+}
+
+/// Every consuming / short-circuiting provided method of `Iterator` on the REAL iterator after `k` calls of `next`
+/// (`rest` = what `collect` gave for the same state; it only supplies the pivot of the short-circuiting probes).
+fn provided_impl<const N: usize>(b: &Bitset<N>, k: usize, rest: &[usize]) -> String {
+    let rem = rest.len();
+    let t = if rem > 0 { rest[rem / 2] } else { 0 };
+    let f = adv(b, k).fold(7u64, hash_step);
+    let mut fe = 7u64;
+    adv(b, k).for_each(|x| fe = hash_step(fe, x));
+    let sm: usize = adv(b, k).sum();
+    let pr = if rem <= 4 { adv(b, k).product::<usize>().to_string() } else { "-".to_string() };
+    let mn = adv(b, k).min();
+    let mx = adv(b, k).max();
+    let xk = adv(b, k).max_by_key(|x| x % 64);
+    let nk = adv(b, k).min_by_key(|x| x % 64);
+    let xb = adv(b, k).max_by(|a, b| (a % 7).cmp(&(b % 7)));
+    let nb = adv(b, k).min_by(|a, b| b.cmp(a));
+    let mut it = adv(b, k);
+    let ps = it.position(|x| x >= t);
+    let ps_left = it.count();
+    let mut it = adv(b, k);
+    let fd = it.find(|&x| x % 64 == 63);
+    let fd_left = it.count();
+    let mut it = adv(b, k);
+    let fm = it.find_map(|x| if x % 2 == 1 { Some(x * 2) } else { None });
+    let fm_left = it.count();
+    let mut it = adv(b, k);
+    let an = it.any(|x| x >= t);
+    let an_left = it.count();
+    let mut it = adv(b, k);
+    let al = it.all(|x| x < t);
+    let al_left = it.count();
+    let mut it = adv(b, k);
+    let tf = it.try_fold(0usize, |a, x| if x >= t { None } else { Some(a + 1) });
+    let tf_left = it.count();
+    let rd = adv(b, k).reduce(|a, b| a.wrapping_mul(3).wrapping_add(b));
+    let cp = format!(
+        "{}{}{}{}{}{}{}{}",
+        ord(adv(b, k).cmp(adv(b, k + 1))),
+        adv(b, k).partial_cmp(adv(b, k + 1)).map_or("?", ord),
+        b01(adv(b, k).eq(adv(b, k + 1))),
+        b01(adv(b, k).ne(adv(b, k + 1))),
+        b01(adv(b, k).lt(adv(b, k + 1))),
+        b01(adv(b, k).le(adv(b, k + 1))),
+        b01(adv(b, k).gt(adv(b, k + 1))),
+        b01(adv(b, k).ge(adv(b, k + 1)))
+    );
+    let sb_count = adv(b, k).step_by(3).count();
+    let sb_last = adv(b, k).step_by(3).last();
+    let tk = adv(b, k).take(2).last();
+    let sw = adv(b, k).skip_while(|&x| x < t).next();
+    let ch = adv(b, k).chain(b.iter_bits()).count();
+    let zp = adv(b, k).zip(b.iter_bits()).last();
+    let en = adv(b, k).enumerate().last();
+    let mut ext: Vec<usize> = vec![usize::MAX];
+    ext.extend(adv(b, k));
+    let (ev, od): (Vec<usize>, Vec<usize>) = adv(b, k).partition(|x| x % 2 == 0);
+    let is = adv(b, k).is_sorted();
+    format!(
+        ":f={}:fe={}:sm={}:pr={}:mn={}:mx={}:xk={}:nk={}:xb={}:nb={}:ps={}>{}:fd={}>{}:fm={}>{}:an={}>{}:al={}>{}:tf={}>{}:rd={}:cp={}:sb={}>{}:tk={}:sw={}:ch={}:zp={}:en={}:ex={}>{}:pt={}&{}:is={}",
+        f, fe, sm, pr, opt(mn), opt(mx), opt(xk), opt(nk), opt(xb), opt(nb),
+        opt(ps), ps_left, opt(fd), fd_left, opt(fm), fm_left, b01(an), an_left, b01(al), al_left, opt(tf), tf_left,
+        opt(rd), cp, sb_count, opt(sb_last), opt(tk), opt(sw), ch,
+        zp.map_or("-".to_string(), |(a, b)| format!("{}&{}", a, b)),
+        en.map_or("-".to_string(), |(i, x)| format!("{}&{}", i, x)),
+        ext.len(), opt(ext.last().copied()), ev.len(), od.len(), b01(is)
+    )
+}
+
+/// The same string from plain slices of the mirror's member list (independent oracle: loops and indexing only).
+fn provided_oracle(full: &[usize], rest: &[usize]) -> String {
+    let rem = rest.len();
+    let t = if rem > 0 { rest[rem / 2] } else { 0 };
+    let mut f = 7u64;
+    let mut sm = 0usize;
+    let mut prod = 1usize;
+    for &x in rest {
+        f = hash_step(f, x);
+        sm += x;
+        if rem <= 4 {
+            prod *= x;
+        }
+    }
+    let pr = if rem <= 4 { prod.to_string() } else { "-".to_string() };
+    let mn = rest.first().copied(); // the list is ascending
+    let mx = rest.last().copied();
+    // last element with the maximal key / first element with the minimal key
+    let last_max = |key: &dyn Fn(usize) -> usize| {
+        let mut best: Option<usize> = None;
+        for &x in rest {
+            if best.map_or(true, |a| key(x) >= key(a)) {
+                best = Some(x);
+            }
+        }
+        best
+    };
+    let first_min = |key: &dyn Fn(usize) -> usize| {
+        let mut best: Option<usize> = None;
+        for &x in rest {
+            if best.map_or(true, |a| key(x) < key(a)) {
+                best = Some(x);
+            }
+        }
+        best
+    };
+    // index of the first element satisfying p, and how many elements follow it
+    let first_idx = |p: &dyn Fn(usize) -> bool| {
+        for (i, &x) in rest.iter().enumerate() {
+            if p(x) {
+                return (Some(i), rem - i - 1);
+            }
+        }
+        (None, 0)
+    };
+    let (ge_i, ge_left) = first_idx(&|x| x >= t);
+    let (b63_i, b63_left) = first_idx(&|x| x % 64 == 63);
+    let (odd_i, odd_left) = first_idx(&|x| x % 2 == 1);
+    let rd = if rem == 0 {
+        None
+    } else {
+        let mut a = rest[0];
+        for &x in &rest[1..] {
+            a = a.wrapping_mul(3).wrapping_add(x);
+        }
+        Some(a)
+    };
+    // lexicographic comparison with the list one element further
+    let other = if rem > 0 { &rest[1..] } else { rest };
+    let mut c = std::cmp::Ordering::Equal;
+    let mut i = 0;
+    loop {
+        match (rest.get(i), other.get(i)) {
+            (None, None) => break,
+            (None, Some(_)) => {
+                c = std::cmp::Ordering::Less;
+                break;
+            }
+            (Some(_), None) => {
+                c = std::cmp::Ordering::Greater;
+                break;
+            }
+            (Some(a), Some(b)) => {
+                if a != b {
+                    c = a.cmp(b);
+                    break;
+                }
+            }
+        }
+        i += 1;
+    }
+    use std::cmp::Ordering::*;
+    let cp = format!("{}{}{}{}{}{}{}{}", ord(c), ord(c), b01(c == Equal), b01(c != Equal), b01(c == Less), b01(c != Greater), b01(c == Greater), b01(c != Less));
+    let third: Vec<usize> = (0..rem).filter(|i| i % 3 == 0).map(|i| rest[i]).collect();
+    let tk = if rem == 0 { None } else { Some(rest[rem.min(2) - 1]) };
+    let zp = if rem == 0 { "-".to_string() } else { format!("{}&{}", rest[rem - 1], full[rem - 1]) };
+    let en = if rem == 0 { "-".to_string() } else { format!("{}&{}", rem - 1, rest[rem - 1]) };
+    let ev = rest.iter().filter(|&&x| x % 2 == 0).count();
+    format!(
+        ":f={}:fe={}:sm={}:pr={}:mn={}:mx={}:xk={}:nk={}:xb={}:nb={}:ps={}>{}:fd={}>{}:fm={}>{}:an={}>{}:al={}>{}:tf={}>{}:rd={}:cp={}:sb={}>{}:tk={}:sw={}:ch={}:zp={}:en={}:ex={}>{}:pt={}&{}:is={}",
+        f, f, sm, pr, opt(mn), opt(mx), opt(last_max(&|x| x % 64)), opt(first_min(&|x| x % 64)), opt(last_max(&|x| x % 7)), opt(mx),
+        opt(ge_i), ge_left, opt(b63_i.map(|i| rest[i])), b63_left, opt(odd_i.map(|i| rest[i] * 2)), odd_left,
+        b01(ge_i.is_some()), ge_left, b01(ge_i.is_none()), ge_left, if ge_i.is_some() { "-".to_string() } else { rem.to_string() }, ge_left,
+        opt(rd), cp, third.len(), opt(third.last().copied()), opt(tk), opt(ge_i.map(|i| rest[i])), rem + full.len(),
+        zp, en, rem + 1, if rem == 0 { usize::MAX } else { rest[rem - 1] }, ev, rem - ev, "1"
     )
 }
 
 /// The probes on the real iterator.
 fn probes_impl<const N: usize>(b: &Bitset<N>, l: usize) -> Vec<Probe> {
-    let adv = |k: usize| {
-        let mut it = b.iter_bits();
-        for _ in 0..k {
-            it.next();
-        }
-        it
-    };
     probe_ks(l)
         .into_iter()
         .map(|k| {
-            let rest: Vec<usize> = adv(k).collect();
+            let rest: Vec<usize> = adv(b, k).collect();
             let rem = rest.len();
             let nths = probe_js(rem)
                 .into_iter()
                 .map(|j| {
-                    let mut it = adv(k);
+                    let mut it = adv(b, k);
                     let x = it.nth(j);
                     let after = it.by_ref().count();
                     (j, x, after)
                 })
                 .collect();
-            let mut pk = adv(k).peekable();
+            let mut pk = adv(b, k).peekable();
             let peek = pk.peek().copied();
             let peek_count = pk.count();
-            let hint = adv(k).size_hint();
+            let hint = adv(b, k).size_hint();
             Probe {
                 k,
-                count: adv(k).count(),
-                last: adv(k).last(),
+                count: adv(b, k).count(),
+                last: adv(b, k).last(),
                 nths,
                 peek,
                 peek_count,
                 skip_count: b.iter_bits().skip(k).count(),
                 hint_ok: hint.0 <= rem && hint.1.map_or(true, |h| rem <= h),
                 hint,
+                provided: if provided_ks(l).contains(&k) { provided_impl(b, k, &rest) } else { String::new() },
                 rest,
             }
         })
@@ -235,7 +448,7 @@ fn probes_oracle(members: &[usize]) -> Vec<Probe> {
     probe_ks(members.len())
         .into_iter()
         .map(|k| {
-            let rest: Vec<usize> = members[k..].to_vec();
+            let rest: Vec<usize> = members[k.min(members.len())..].to_vec();
             let rem = rest.len();
             Probe {
                 k,
@@ -247,6 +460,7 @@ fn probes_oracle(members: &[usize]) -> Vec<Probe> {
                 skip_count: rem,
                 hint_ok: true,
                 hint: (0, None),
+                provided: if provided_ks(members.len()).contains(&k) { provided_oracle(members, &rest) } else { String::new() },
                 rest,
             }
         })
@@ -260,18 +474,144 @@ struct RegObs {
     disp: String,
     dbg: String,
     probes: Vec<Probe>,
+    extra: String,
 }
 
 fn show_reg(o: &RegObs, n: usize) -> String {
     format!(
-        "t={},c={},i={},d={},g={},it={}",
+        "t={},c={},i={},d={},g={},x={},it={}",
         pack_hex(&o.tests),
         o.count,
         show_iter(&o.iter, n),
         o.disp,
         if o.dbg == o.disp { "same".to_string() } else { o.dbg.clone() },
-        o.probes.iter().map(|p| show_probe(p, n)).collect::<Vec<_>>().join("+")
+        o.extra,
+        o.probes.iter().map(|p| show_probe(p, n, &o.iter)).collect::<Vec<_>>().join("+")
     )
+}
+
+fn bits_of<const N: usize>(b: &Bitset<N>) -> Vec<bool> {
+    (0..64 * N).map(|i| b.test(i)).collect()
+}
+
+/// Harness-side checks of the other trait entry points of `Bitset` / `BitsIter` against the mirror `m`
+/// (`ok`, or the names of the checks that failed).  Every result is read back through `test` on all indices.
+fn extra_checks<const N: usize>(b: &Bitset<N>, m: &[bool], disp: &str, dbg: &str) -> String {
+    let mut bad: Vec<&str> = Vec::new();
+    let members: Vec<usize> = (0..64 * N).filter(|&i| m[i]).collect();
+    // BitsIter::new is public: iterate the raw words directly
+    let mut words = [0u64; N];
+    for &i in &members {
+        words[i / 64] |= 1u64 << (i % 64);
+    }
+    if BitsIter::new(&words).collect::<Vec<usize>>() != members {
+        bad.push("BitsIter::new");
+    }
+    if b.to_string() != bits01(m) {
+        bad.push("to_string");
+    }
+    if format!("{:#?}", b) != dbg {
+        bad.push("alt-debug");
+    }
+    if format!("{:?}", Some(b)) != format!("Some({})", dbg) || format!("{}", &b) != disp {
+        bad.push("nested-fmt");
+    }
+    let c = b.clone();
+    if bits_of(&c) != m || !(c == *b) || c != *b {
+        bad.push("clone");
+    }
+    // clone_from into a fresh and into a used (all-ones / own complement) destination
+    let mut fresh = Bitset::<N>::new();
+    fresh.clone_from(b);
+    let mut used = !b.clone();
+    used.clone_from(b);
+    if bits_of(&fresh) != m || bits_of(&used) != m || fresh != used {
+        bad.push("clone_from");
+    }
+    let d = Bitset::<N>::default();
+    if bits_of(&d).iter().any(|&x| x) || d != Bitset::<N>::new() || d.count() != 0 {
+        bad.push("default");
+    }
+    // the same object on both sides of the reference operators
+    if bits_of(&(b & b)) != m {
+        bad.push("self&");
+    }
+    if bits_of(&(b | b)) != m {
+        bad.push("self|");
+    }
+    if bits_of(&(b ^ b)).iter().any(|&x| x) {
+        bad.push("self^");
+    }
+    // assigning forms with an equal (cloned) right-hand side
+    let mut a = b.clone();
+    a &= b;
+    let mut o = b.clone();
+    o |= b;
+    let mut x = b.clone();
+    x ^= b;
+    if bits_of(&a) != m || bits_of(&o) != m || bits_of(&x).iter().any(|&v| v) {
+        bad.push("assign-equal");
+    }
+    let nn = !!b.clone();
+    if bits_of(&nn) != m || bits_of(&!b.clone()).iter().zip(m).any(|(p, q)| p == q) {
+        bad.push("not");
+    }
+    if b.iter_bits().count() != b.count() {
+        bad.push("count-vs-iter");
+    }
+    if bad.is_empty() {
+        "ok".to_string()
+    } else {
+        format!("bad({})", bad.join("/"))
+    }
+}
+
+/// Observe one register through the public API; returns the printed record and whether everything equals the mirror's.
+fn observe_reg<const N: usize>(b: &Bitset<N>, m: &[bool]) -> (String, bool) {
+    let bits = 64 * N;
+    let iter: Vec<usize> = b.iter_bits().collect();
+    let disp = format!("{}", b);
+    let dbg = format!("{:?}", b);
+    let o = RegObs {
+        tests: (0..bits).map(|i| b.test(i)).collect(),
+        count: b.count(),
+        probes: probes_impl(b, iter.len()),
+        iter,
+        extra: extra_checks(b, m, &disp, &dbg),
+        disp,
+        dbg,
+    };
+    let members: Vec<usize> = (0..bits).filter(|&i| m[i]).collect();
+    let e = RegObs {
+        tests: m.to_vec(),
+        count: m.iter().filter(|&&x| x).count(),
+        probes: probes_oracle(&members),
+        iter: members,
+        disp: bits01(m),
+        dbg: bits01(m),
+        extra: "ok".to_string(),
+    };
+    // (the oracle's `hint` field is a placeholder: compare everything but it)
+    let probes_eq = o.probes.len() == e.probes.len()
+        && o.probes.iter().zip(e.probes.iter()).all(|(a, b)| {
+            a.k == b.k && a.count == b.count && a.last == b.last && a.rest == b.rest && a.nths == b.nths
+                && a.peek == b.peek && a.peek_count == b.peek_count && a.skip_count == b.skip_count && a.hint_ok
+                && a.provided == b.provided
+        });
+    let ok = o.tests == e.tests && o.count == e.count && o.iter == e.iter && o.disp == e.disp && o.dbg == e.dbg && o.extra == e.extra && probes_eq;
+    (show_reg(&o, bits), ok)
+}
+
+/// two distinct elements of a slice, mutably and shared
+fn pair_mut<T>(v: &mut [T], d: usize, s: usize) -> (&mut T, &T) {
+    assert!(d != s);
+    if d < s {
+        let (lo, hi) = v.split_at_mut(s);
+        (&mut lo[d], &hi[0])
+    } else {
+        let (lo, hi) = v.split_at_mut(d);
+        (&mut hi[0], &lo[s])
+    }
 }
 
 fn run_history<const N: usize>(k: usize, ops: &[Op]) -> String {
@@ -280,10 +620,16 @@ fn run_history<const N: usize>(k: usize, ops: &[Op]) -> String {
     let mut mir: Vec<Vec<bool>> = vec![vec![false; bits]; k]; // independent oracle
     let mut log: Vec<bool> = Vec::new();
     let mut mlog: Vec<bool> = Vec::new();
+    let mut olog: Vec<String> = Vec::new();
+    let mut oracle_ok = true;
     for op in ops {
         match op.clone() {
             Op::New(d) => {
                 regs[d] = Bitset::<N>::new();
+                mir[d] = vec![false; bits];
+            }
+            Op::Default(d) => {
+                regs[d] = Default::default();
                 mir[d] = vec![false; bits];
             }
             Op::From(d, v) => {
@@ -307,6 +653,7 @@ fn run_history<const N: usize>(k: usize, ops: &[Op]) -> String {
                 mir[d] = vec![false; bits];
             }
             Op::And(d, a, b) => {
+                // a == b: the SAME object on both sides
                 let r = &regs[a] & &regs[b];
                 regs[d] = r;
                 mir[d] = (0..bits).map(|i| mir[a][i] && mir[b][i]).collect();
@@ -322,18 +669,33 @@ fn run_history<const N: usize>(k: usize, ops: &[Op]) -> String {
                 mir[d] = (0..bits).map(|i| mir[a][i] != mir[b][i]).collect();
             }
             Op::AndA(d, s) => {
-                let t = regs[s].clone();
-                regs[d] &= &t;
+                if d == s {
+                    let t = regs[s].clone();
+                    regs[d] &= &t;
+                } else {
+                    let (x, y) = pair_mut(&mut regs, d, s); // the live register itself, not a copy
+                    *x &= y;
+                }
                 mir[d] = (0..bits).map(|i| mir[d][i] && mir[s][i]).collect();
             }
             Op::OrA(d, s) => {
-                let t = regs[s].clone();
-                regs[d] |= &t;
+                if d == s {
+                    let t = regs[s].clone();
+                    regs[d] |= &t;
+                } else {
+                    let (x, y) = pair_mut(&mut regs, d, s);
+                    *x |= y;
+                }
                 mir[d] = (0..bits).map(|i| mir[d][i] || mir[s][i]).collect();
             }
             Op::XorA(d, s) => {
-                let t = regs[s].clone();
-                regs[d] ^= &t;
+                if d == s {
+                    let t = regs[s].clone();
+                    regs[d] ^= &t;
+                } else {
+                    let (x, y) = pair_mut(&mut regs, d, s);
+                    *x ^= y;
+                }
                 mir[d] = (0..bits).map(|i| mir[d][i] != mir[s][i]).collect();
             }
             Op::Not(d, s) => {
@@ -345,9 +707,25 @@ fn run_history<const N: usize>(k: usize, ops: &[Op]) -> String {
                 regs[d] = regs[s].clone();
                 mir[d] = mir[s].clone();
             }
+            Op::CloneFrom(d, s) => {
+                // Clone::clone_from into the live (used) destination
+                if d == s {
+                    let t = regs[s].clone();
+                    regs[d].clone_from(&t);
+                } else {
+                    let (x, y) = pair_mut(&mut regs, d, s);
+                    x.clone_from(y);
+                }
+                mir[d] = mir[s].clone();
+            }
             Op::Test(r, x) => {
                 log.push(regs[r].test(x));
                 mlog.push(mir[r][x]);
+            }
+            Op::Obs(r) => {
+                let (s, ok) = observe_reg(&regs[r], &mir[r]);
+                oracle_ok &= ok;
+                olog.push(s);
             }
             Op::Load(d, ws) => {
                 regs[d] = Bitset::<N>::new();
@@ -365,56 +743,33 @@ fn run_history<const N: usize>(k: usize, ops: &[Op]) -> String {
     }
     // observe
     let mut out: Vec<String> = Vec::new();
-    let mut oracle_ok = true;
     for r in 0..k {
-        let b = &regs[r];
-        let iter: Vec<usize> = b.iter_bits().collect();
-        let o = RegObs {
-            tests: (0..bits).map(|i| b.test(i)).collect(),
-            count: b.count(),
-            probes: probes_impl(b, iter.len()),
-            iter,
-            disp: format!("{}", b),
-            dbg: format!("{:?}", b),
-        };
-        let m = &mir[r];
-        let members: Vec<usize> = (0..bits).filter(|&i| m[i]).collect();
-        let e = RegObs {
-            tests: m.clone(),
-            count: m.iter().filter(|&&x| x).count(),
-            probes: probes_oracle(&members),
-            iter: members,
-            disp: bits01(m),
-            dbg: bits01(m),
-        };
-        // (the oracle's `hint` field is a placeholder: compare everything but it)
-        let probes_eq = o.probes.len() == e.probes.len()
-            && o.probes.iter().zip(e.probes.iter()).all(|(a, b)| {
-                a.k == b.k && a.count == b.count && a.last == b.last && a.rest == b.rest && a.nths == b.nths
-                    && a.peek == b.peek && a.peek_count == b.peek_count && a.skip_count == b.skip_count && a.hint_ok
-            });
-        if o.tests != e.tests || o.count != e.count || o.iter != e.iter || o.disp != e.disp || o.dbg != e.dbg || !probes_eq {
-            oracle_ok = false;
-        }
-        out.push(show_reg(&o, bits));
+        let (s, ok) = observe_reg(&regs[r], &mir[r]);
+        oracle_ok &= ok;
+        out.push(s);
     }
     let mut eqs: Vec<String> = Vec::new();
+    let mut nes: Vec<String> = Vec::new();
     for a in 0..k {
         let row: Vec<bool> = (0..k).map(|b| regs[a] == regs[b]).collect();
+        let nrow: Vec<bool> = (0..k).map(|b| regs[a] != regs[b]).collect();
         let erow: Vec<bool> = (0..k).map(|b| mir[a] == mir[b]).collect();
-        if row != erow {
+        if row != erow || nrow.iter().zip(erow.iter()).any(|(x, y)| x == y) {
             oracle_ok = false;
         }
         eqs.push(bits01(&row));
+        nes.push(bits01(&nrow));
     }
     if log != mlog {
         oracle_ok = false;
     }
     format!(
-        "{} eq={} log={} o={}",
+        "{} eq={} ne={} log={} obs={} o={}",
         out.join(" "),
         eqs.join("/"),
+        nes.join("/"),
         if log.is_empty() { "-".to_string() } else { bits01(&log) },
+        if olog.is_empty() { "-".to_string() } else { olog.join("#") },
         if oracle_ok { "ok" } else { "MISMATCH" }
     )
 }
@@ -444,11 +799,17 @@ fn run_line(line: &str) -> String {
             None => return INVALID.to_string(),
         }
     }
+    // one instantiation of the const generic per entry of `NS`
     let r = match n {
         1 => catch(|| run_history::<1>(k, &ops)),
         2 => catch(|| run_history::<2>(k, &ops)),
         3 => catch(|| run_history::<3>(k, &ops)),
         10 => catch(|| run_history::<10>(k, &ops)),
+        63 => catch(|| run_history::<63>(k, &ops)),
+        64 => catch(|| run_history::<64>(k, &ops)),
+        65 => catch(|| run_history::<65>(k, &ops)),
+        128 => catch(|| run_history::<128>(k, &ops)),
+        129 => catch(|| run_history::<129>(k, &ops)),
         _ => return INVALID.to_string(),
     };
     match r {
@@ -606,57 +967,81 @@ fn rand_word(rng: &mut SplitMix64) -> u64 {
 }
 
 fn random_history(rng: &mut SplitMix64, n: usize, pools: &[Vec<u64>], bpos: &[usize], max_len: u64, st: &mut Stats) -> String {
-    let k = 1 + rng.below(4) as usize;
+    let big = n >= 63;
+    let k = 1 + rng.below(if big { 3 } else { 4 }) as usize;
     let len = 1 + rng.below(max_len) as usize;
     let mut s = format!("{} {}", n, k);
     let r = |rng: &mut SplitMix64| rng.below(k as u64) as usize;
+    let mut nobs = 0;
     for _ in 0..len {
         let c = rng.below(100);
-        let op = if c < 18 {
+        let op = if c < 17 {
             st.bump("op_set");
             format!("set {} {}", r(rng), rand_pos(rng, n, bpos, st))
-        } else if c < 30 {
+        } else if c < 28 {
             st.bump("op_remove");
             format!("remove {} {}", r(rng), rand_pos(rng, n, bpos, st))
-        } else if c < 42 {
+        } else if c < 39 {
             st.bump("op_flip");
             format!("flip {} {}", r(rng), rand_pos(rng, n, bpos, st))
-        } else if c < 50 {
+        } else if c < 46 {
             st.bump("op_test");
             format!("test {} {}", r(rng), rand_pos(rng, n, bpos, st))
-        } else if c < 53 {
+        } else if c < 48 {
             st.bump("op_clear");
             format!("clear {}", r(rng))
-        } else if c < 55 {
+        } else if c < 50 {
             st.bump("op_new");
             format!("new {}", r(rng))
-        } else if c < 60 {
+        } else if c < 52 {
+            st.bump("op_default");
+            format!("default {}", r(rng))
+        } else if c < 57 {
             st.bump("op_from_u64");
             format!("from {} {:x}", r(rng), rand_word(rng))
-        } else if c < 64 {
+        } else if c < 61 {
             st.bump("op_and");
             format!("and {} {} {}", r(rng), r(rng), r(rng))
-        } else if c < 68 {
+        } else if c < 65 {
             st.bump("op_or");
             format!("or {} {} {}", r(rng), r(rng), r(rng))
-        } else if c < 72 {
+        } else if c < 69 {
             st.bump("op_xor");
             format!("xor {} {} {}", r(rng), r(rng), r(rng))
-        } else if c < 76 {
+        } else if c < 73 {
             st.bump("op_and_assign");
             format!("anda {} {}", r(rng), r(rng))
-        } else if c < 80 {
+        } else if c < 77 {
             st.bump("op_or_assign");
             format!("ora {} {}", r(rng), r(rng))
-        } else if c < 84 {
+        } else if c < 81 {
             st.bump("op_xor_assign");
             format!("xora {} {}", r(rng), r(rng))
-        } else if c < 90 {
-            st.bump("op_not");
-            format!("not {} {}", r(rng), r(rng))
-        } else if c < 94 {
+        } else if c < 86 {
+            // a complement is dense: rare for the big capacities (observation cost)
+            if big && !rng.chance(1, 8) {
+                st.bump("op_flip");
+                format!("flip {} {}", r(rng), rand_pos(rng, n, bpos, st))
+            } else {
+                st.bump("op_not");
+                format!("not {} {}", r(rng), r(rng))
+            }
+        } else if c < 89 {
             st.bump("op_clone");
             format!("clone {} {}", r(rng), r(rng))
+        } else if c < 92 {
+            st.bump("op_clone_from");
+            format!("clonefrom {} {}", r(rng), r(rng))
+        } else if c < 96 {
+            // a mid-history observation (at most two per history: each prints a whole register record)
+            if nobs < 2 {
+                nobs += 1;
+                st.bump("op_obs");
+                format!("obs {}", r(rng))
+            } else {
+                st.bump("op_test");
+                format!("test {} {}", r(rng), rand_pos(rng, n, bpos, st))
+            }
         } else {
             st.bump("op_load_pool");
             {
@@ -670,17 +1055,71 @@ fn random_history(rng: &mut SplitMix64, n: usize, pools: &[Vec<u64>], bpos: &[us
     s
 }
 
-fn gen(args: &Args, emit: &mut dyn FnMut(String), st: &mut Stats) {
+/// Sets for the capacities at and beyond the 64-word boundary: (sparse sets, dense sets).
+/// Sparse sets keep the observation cheap; every one of them has a member `i` whose counterparts `i ± 4096` are not members.
+fn pool_big(n: usize, rng: &mut SplitMix64) -> (Vec<Vec<u64>>, Vec<Vec<u64>>) {
+    let b = 64 * n;
+    let mut sp: Vec<Vec<u64>> = Vec::new();
+    sp.push(from_bits(n, |i| i == 0));
+    sp.push(from_bits(n, |i| i == b - 1));
+    sp.push(from_bits(n, |i| [63, 64, 4031, 4032, 4095, 4096, 4097, 4159, 4160, 8191, 8192, b - 64, b - 1].contains(&i)));
+    sp.push((0..n).map(|_| 1u64 << rng.below(64)).collect()); // one random bit in every word
+    sp.push({
+        let mut w = vec![0u64; n];
+        for _ in 0..40 {
+            let x = rng.below(b as u64) as usize;
+            w[x / 64] |= 1 << (x % 64);
+        }
+        w
+    });
+    sp.push(from_bits(n, |i| i / 64 == 63.min(n - 1))); // word 63 (the last word of the first 4096-bit block) full
+    sp.push(from_bits(n, |i| i / 64 == n - 1)); // last word full
+    sp.push(from_bits(n, |i| i / 64 == 0)); // first word full
+    sp.push(from_bits(n, |i| i % 64 == 63 && (i / 64) % 16 == 15)); // bit 63 of every 16th word
+    let mut de: Vec<Vec<u64>> = Vec::new();
+    de.push(vec![u64::MAX; n]);
+    de.push((0..n).map(|_| rng.next_u64()).collect());
+    de.push(from_bits(n, |i| i < 4096.min(b / 2))); // the first block (half of the words for N <= 64) full
+    de.push(vec![0x5555_5555_5555_5555; n]);
+    (sp, de)
+}
+
+fn boundary_positions_big(n: usize) -> Vec<usize> {
+    let b = 64 * n;
+    let mut v: Vec<usize> = vec![0, 63, 64, 4031, 4032, 4095, 4096, 4097, 8191, 8192, b - 65, b - 64, b - 1];
+    v.retain(|&x| x < b);
+    v.sort();
+    v.dedup();
+    v
+}
+
+fn gen(args: &Args, emit0: &mut dyn FnMut(String), st: &mut Stats) {
     let thorough = args.tier == "thorough";
+    // the debug profile (debug assertions on, no optimisation) gets a reduced stream of the same families
+    let debug = args.extra.get("profile").map_or(false, |p| p == "debug");
+    let mut counter = 0u64;
+    let mut emit_f = |s: String| {
+        counter += 1;
+        if debug {
+            let big = s.split_whitespace().next().and_then(|t| t.parse::<usize>().ok()).map_or(false, |n| n >= 63);
+            let keep = if thorough { counter % 40 == 0 } else if big { counter % 12 == 0 } else { counter % 14 == 0 };
+            if !keep {
+                return;
+            }
+        }
+        emit0(s)
+    };
+    let emit: &mut dyn FnMut(String) = &mut emit_f;
     let mut rng = SplitMix64::new(args.seed ^ 0xC12_0000);
-    let pools: Vec<Vec<Vec<u64>>> = NS.iter().map(|&n| pool(n, &mut rng)).collect();
-    let bposs: Vec<Vec<usize>> = NS.iter().map(|&n| boundary_positions(n)).collect();
+    let pools: Vec<Vec<Vec<u64>>> = NS_SMALL.iter().map(|&n| pool(n, &mut rng)).collect();
+    let bposs: Vec<Vec<usize>> = NS_SMALL.iter().map(|&n| boundary_positions(n)).collect();
 
     // (A) point operations: every pool set x every boundary position x {set, remove, flip}
-    for (ni, &n) in NS.iter().enumerate() {
-        let step = if thorough { 1 } else { 3 };
-        for p in pools[ni].iter().step_by(step) {
-            for &x in &bposs[ni] {
+    for (ni, &n) in NS_SMALL.iter().enumerate() {
+        let step = if thorough { 1 } else if n == 10 { 6 } else { 4 };
+        for p in pools[ni].iter().skip(if thorough { 0 } else { (args.seed as usize) % step }).step_by(step) {
+            // (quick tier, N = 10: every second boundary position - a dense 640-bit observation costs ~5 ms on the model side)
+            for &x in bposs[ni].iter().step_by(if !thorough && n == 10 { 2 } else { 1 }) {
                 for op in ["set", "remove", "flip"] {
                     emit(format!("{} 1 ; load 0 {} ; {} 0 {} ; test 0 {}", n, words_hex(p), op, x, x));
                     st.bump("A_point_pool_x_boundary");
@@ -689,10 +1128,11 @@ fn gen(args: &Args, emit: &mut dyn FnMut(String), st: &mut Stats) {
         }
     }
     // (B) all ordered pairs of pool sets through the six binary forms
-    for (ni, &n) in NS.iter().enumerate() {
-        // quick tier: all 1600 pairs for N = 1, a 14 x 14 (N = 2, 3) or 10 x 10 (N = 10) sub-grid otherwise
-        let stride = if thorough || n == 1 { 1 } else if n == 10 { 4 } else { 3 };
-        let sel: Vec<&Vec<u64>> = pools[ni].iter().step_by(stride).collect();
+    for (ni, &n) in NS_SMALL.iter().enumerate() {
+        // quick tier: a 20 x 20 (N = 1), 14 x 14 (N = 2), 10 x 10 (N = 3) or 6 x 6 (N = 10) sub-grid (rotating with the seed)
+        let stride = if thorough { 1 } else if n == 1 { 2 } else if n == 2 { 3 } else if n == 3 { 4 } else { 7 };
+        let off = if thorough { 0 } else { (args.seed as usize) % stride };
+        let sel: Vec<&Vec<u64>> = pools[ni].iter().skip(off).step_by(stride).collect();
         for a in &sel {
             for b in &sel {
                 emit(format!(
@@ -705,16 +1145,21 @@ fn gen(args: &Args, emit: &mut dyn FnMut(String), st: &mut Stats) {
             }
         }
     }
-    // (C) unary forms on every pool set
-    for (ni, &n) in NS.iter().enumerate() {
-        for p in &pools[ni] {
+    // (C) unary forms on every pool set; the same object on both sides of the operators; Default / clone_from
+    for (ni, &n) in NS_SMALL.iter().enumerate() {
+        for (pi, p) in pools[ni].iter().enumerate() {
             emit(format!("{} 4 ; load 0 {} ; not 1 0 ; not 2 1 ; clone 3 0 ; clear 3", n, words_hex(p)));
-            emit(format!("{} 3 ; load 0 {} ; xora 0 0 ; load 1 {} ; anda 1 1 ; load 2 {} ; ora 2 2", n, words_hex(p), words_hex(p), words_hex(p)));
+            emit(format!("{} 4 ; load 0 {} ; and 1 0 0 ; or 2 0 0 ; xor 3 0 0", n, words_hex(p)));
             st.add("C_unary_pool", 2);
+            if thorough || pi % 2 == 0 {
+                emit(format!("{} 3 ; load 0 {} ; xora 0 0 ; load 1 {} ; anda 1 1 ; load 2 {} ; ora 2 2", n, words_hex(p), words_hex(p), words_hex(p)));
+                emit(format!("{} 4 ; load 0 {} ; not 1 0 ; clonefrom 1 0 ; clonefrom 2 0 ; load 3 {} ; default 3 ; xor 0 0 0", n, words_hex(p), words_hex(p)));
+                st.add("C_unary_pool", 2);
+            }
         }
     }
     // (D) from_u64 on special words
-    for &n in &NS {
+    for &n in &NS_SMALL {
         let mut ws: Vec<u64> = vec![0, 1, 2, u64::MAX, 1 << 63, (1 << 63) - 1, 1 << 32, (1 << 32) - 1, 0x8000_0000_0000_0001, 0x5555_5555_5555_5555];
         for i in 0..64 {
             ws.push(1u64 << i);
@@ -722,14 +1167,20 @@ fn gen(args: &Args, emit: &mut dyn FnMut(String), st: &mut Stats) {
         for _ in 0..(if thorough { 200 } else { 20 }) {
             ws.push(rand_word(&mut rng));
         }
-        for w in ws {
+        for (wi, w) in ws.into_iter().enumerate() {
+            if !thorough && n == 10 && wi % 4 != 0 {
+                continue;
+            }
             emit(format!("{} 2 ; from 0 {:x} ; not 1 0", n, w));
             st.bump("D_from_u64");
         }
     }
     // (E) iterator focus: every single-bit set; pairs of bits (all pairs for N=1 in thorough, boundary pairs otherwise)
-    for (ni, &n) in NS.iter().enumerate() {
+    for (ni, &n) in NS_SMALL.iter().enumerate() {
         for x in 0..64 * n {
+            if !thorough && n == 10 && !(x < 130 || (x >= 318 && x <= 322) || x >= 64 * n - 130) {
+                continue; // quick tier, N = 10: the first two and the last two words and one inner boundary
+            }
             emit(format!("{} 1 ; set 0 {}", n, x));
             st.bump("E_single_bit");
         }
@@ -742,8 +1193,11 @@ fn gen(args: &Args, emit: &mut dyn FnMut(String), st: &mut Stats) {
             }
         }
         let bp = &bposs[ni];
-        for &x in bp {
-            for &y in bp {
+        for (xi, &x) in bp.iter().enumerate() {
+            for (yi, &y) in bp.iter().enumerate() {
+                if !thorough && n == 10 && !(yi == xi + 1 || (xi == 0 && yi + 1 == bp.len()) || (xi + yi) % 7 == 0) {
+                    continue; // quick tier, N = 10: neighbours in the boundary list, the two ends, and a seventh of the rest
+                }
                 if x < y {
                     emit(format!("{} 2 ; set 0 {} ; set 0 {} ; flip 1 {} ; flip 1 {} ; not 1 1", n, y, x, x, y));
                     st.bump("E_bit_pairs_boundary");
@@ -752,7 +1206,7 @@ fn gen(args: &Args, emit: &mut dyn FnMut(String), st: &mut Stats) {
         }
     }
     // (F) random histories
-    let nf = if thorough { 250_000 } else { 1_200 };
+    let nf = if thorough { 100_000 } else { 1_200 };
     for i in 0..nf {
         // N=10 lines are long: one in six
         let ni = match i % 6 {
@@ -767,19 +1221,128 @@ fn gen(args: &Args, emit: &mut dyn FnMut(String), st: &mut Stats) {
                 }
             }
         };
-        let n = NS[ni];
+        let n = NS_SMALL[ni];
         st.bump(&format!("F_random_N{}", n));
         let max_len = if i % 10 == 0 { 40 } else { 14 };
         emit(random_history(&mut rng, n, &pools[ni], &bposs[ni], max_len, st));
+    }
+    // (H) several live bitsets used interleaved, each observed in the middle of the history (before and after it and
+    //     its neighbours change), copies taken mid-history with both copies used afterwards
+    for (ni, &n) in NS_SMALL.iter().enumerate() {
+        let pl = &pools[ni];
+        let cnt = if thorough { 400 } else { 15 };
+        for _ in 0..cnt {
+            let a = rng.pick(pl);
+            let b = rng.pick(pl);
+            let x = rand_pos(&mut rng, n, &bposs[ni], st);
+            let y = rand_pos(&mut rng, n, &bposs[ni], st);
+            emit(format!(
+                "{} 3 ; load 0 {} ; obs 0 ; load 1 {} ; obs 0 ; xora 0 1 ; obs 0 ; obs 1 ; clonefrom 2 0 ; flip 0 {} ; obs 2 ; set 2 {} ; default 1 ; obs 1 ; obs 0",
+                n, words_hex(a), words_hex(b), x, y
+            ));
+            st.bump("H_live_objects_mid_observation");
+        }
     }
     // (G) outside the stated domain: positions >= 64 N (the property says nothing; model and code must still agree: panic:index)
     for &n in &NS {
         let b = 64 * n;
         for &x in &[b, b + 1, b + 63, b + 64, 2 * b, 1 << 32, (1usize << 63), usize::MAX, usize::MAX - 63] {
             for op in ["set", "remove", "flip", "test"] {
+                if n >= 63 && op != "set" && !thorough {
+                    continue;
+                }
                 emit(format!("{} 1 ; set 0 0 ; {} 0 {}", n, op, x));
                 st.bump("G_out_of_domain");
             }
+        }
+    }
+    // (I) capacities at and beyond the 64-word boundary (63, 64, 65, 128, 129): the same families, reduced and mostly on
+    //     sparse sets (an observation of a dense 8256-bit set costs ~0.1 s on the model side)
+    for &n in &NS_BIG {
+        let b = 64 * n;
+        let (sp, de) = pool_big(n, &mut rng);
+        let bp = boundary_positions_big(n);
+        let tag = format!("I_N{}", n);
+        // quick tier: the full reduced stream for 65 and 129 (one word past a block), a lighter one for 63, 64, 128
+        let lite = !thorough && n != 65 && n != 129;
+        // rendering / iteration / count of every set, its clone, its cleared copy
+        for p in &sp {
+            emit(format!("{} 2 ; load 0 {} ; clonefrom 1 0 ; clear 0", n, words_hex(p)));
+            st.bump(&tag);
+        }
+        if thorough {
+            for p in &de {
+                emit(format!("{} 2 ; load 0 {} ; not 1 0", n, words_hex(p)));
+                st.bump(&tag);
+            }
+            emit(format!("{} 2 ; not 0 0 ; remove 0 {} ; remove 0 4095 ; remove 0 0 ; not 1 0", n, b - 1));
+            st.bump(&tag);
+        } else {
+            emit(format!("{} 1 ; load 0 {}", n, words_hex(&de[0])));
+            emit(format!("{} 2 ; load 0 {} ; not 1 0", n, words_hex(&de[1])));
+            st.add(&tag, 2);
+        }
+        emit(format!("{} 2 ; set 0 0 ; set 0 {} ; not 1 0", n, b - 1));
+        st.bump(&tag);
+        // point operations
+        let sel: Vec<&Vec<u64>> = if thorough { sp.iter().chain(de.iter().take(1)).collect() } else if lite { vec![&sp[2]] } else { vec![&sp[2], &sp[3]] };
+        for p in &sel {
+            for &x in bp.iter().step_by(if thorough { 1 } else if lite { 3 } else { 2 }) {
+                for op in ["set", "remove", "flip"] {
+                    emit(format!("{} 1 ; load 0 {} ; {} 0 {} ; test 0 {}", n, words_hex(p), op, x, x));
+                    st.bump(&tag);
+                }
+            }
+        }
+        // operators and equality on pairs
+        let sel: Vec<&Vec<u64>> = if thorough { sp.iter().chain(de.iter().skip(1).take(2)).collect() } else { vec![&sp[2], &sp[3], &sp[5]] };
+        for (i, a) in sel.iter().enumerate() {
+            for (j, bb) in sel.iter().enumerate() {
+                if !thorough && ((i + j) % 2 == 1 || (lite && i != j)) {
+                    continue;
+                }
+                emit(format!(
+                    "{} 8 ; load 0 {} ; load 1 {} ; and 2 0 1 ; or 3 0 1 ; xor 4 0 1 ; clone 5 0 ; anda 5 1 ; clone 6 0 ; ora 6 1 ; clone 7 0 ; xora 7 1",
+                    n, words_hex(a), words_hex(bb)
+                ));
+                st.bump(&tag);
+            }
+        }
+        emit(format!("{} 4 ; load 0 {} ; and 1 0 0 ; or 2 0 0 ; xor 3 0 0", n, words_hex(&sp[3])));
+        emit(format!("{} 2 ; load 0 {} ; load 1 {} ; xora 0 0 ; anda 1 1", n, words_hex(&sp[4]), words_hex(&sp[2])));
+        st.add(&tag, 2);
+        // from_u64, single bits and bit pairs at the boundaries
+        for w in [1u64, 1 << 63, u64::MAX] {
+            emit(format!("{} 1 ; from 0 {:x}", n, w));
+            st.bump(&tag);
+        }
+        for (i, &x) in bp.iter().enumerate() {
+            if lite && i % 2 == 1 {
+                continue;
+            }
+            emit(format!("{} 1 ; set 0 {}", n, x));
+            st.bump(&tag);
+            if let Some(&y) = bp.get(i + 1) {
+                emit(format!("{} 1 ; set 0 {} ; set 0 {}", n, y, x));
+                st.bump(&tag);
+            }
+        }
+        // live objects with mid-history observations
+        for _ in 0..(if thorough { 60 } else { 2 }) {
+            let a = rng.pick(&sp);
+            let bb = rng.pick(&sp);
+            let x = *rng.pick(&bp);
+            emit(format!(
+                "{} 3 ; load 0 {} ; obs 0 ; load 1 {} ; xora 0 1 ; obs 0 ; clonefrom 2 0 ; flip 0 {} ; obs 2 ; default 1 ; obs 1",
+                n, words_hex(a), words_hex(bb), x
+            ));
+            st.bump(&tag);
+        }
+        // random histories
+        for i in 0..(if thorough { 400 } else if lite { 5 } else { 12 }) {
+            let max_len = if i % 10 == 0 { 20 } else { 8 };
+            emit(random_history(&mut rng, n, &sp, &bp, max_len, st));
+            st.bump(&tag);
         }
     }
 }
